@@ -42,6 +42,10 @@ Use(u, x) ==
       [] u = "applyl"  -> ApplyL(Lam("pair", x), W2)
          \* the function of <| is itself parsed (it consumes "="), and it is parsed BEFORE its argument
       [] u = "applylc" -> ApplyL(Right(Str(<<eqs>>), Lam("pair", x)), W2)
+         \* a predicate whose value is truthy without being True (a length), in a rule that ends with the `where`
+      [] u = "wherelen" -> Seq2(Ref("Len3"), PyVar(x))
+         \* `e where p` with a literal e directly as the element of a repetition: a rejected element is not consumed
+      [] u = "whererep" -> Seq2(Star(Where(Rgx(Cls(<<a, b>>)), Lam("ne", x))), Rgx(RxStarG(Cls(<<a, b, semi, bang, eqs>>))))
       [] u = "count"   -> Rep(Str(<<b>>), Nm(x), Nm(x))
       [] u = "lengt"   -> Where(W2, Lam("lengt", x))
       [] u = "tmpl"    -> Call("Echo", <<Pos(Ref(x))>>)
@@ -50,7 +54,7 @@ Use(u, x) ==
          \* the name is mentioned inside a compound argument (which the generator moves into a helper function)
       [] u = "argwhere" -> Right(Str(<<eqs>>), Call("Id", <<Pos(Where(W2, Lam("eq", x)))>>))
 
-Uses == {"whereeq", "value", "list", "apply", "applyl", "applylc", "count", "lengt", "tmpl", "tmplkw", "wherene", "argwhere"}
+Uses == {"whereeq", "value", "list", "apply", "applyl", "applylc", "wherelen", "whererep", "count", "lengt", "tmpl", "tmplkw", "wherene", "argwhere"}
 
 Src(u, w) == IF u = "count" THEN Wd ELSE w      \* a count needs a number
 
@@ -122,7 +126,8 @@ Grammar(bf, u, c) ==
                 ShB |-> RuleP(<<X>>, Use(u, X)),
                 Id |-> RuleP(<<"p">>, Ref("p")),
                 Echo |-> RuleP(<<"p">>, Seq2(W2, PyVar("p"))),
-                Same |-> RuleP(<<"q">>, Where(W2, Lam("eq", "q")))],
+                Same |-> RuleP(<<"q">>, Where(W2, Lam("eq", "q"))),
+                Len3 |-> Rule(Where(W2, Py(<<"fn", "len">>)))],
      ign |-> <<>>, start |-> "start"]
 
 Alpha == <<a, b, semi, bang, eqs>>
